@@ -12,6 +12,8 @@ package setec
 //@      s.timeNow != nil && s.logf != nil &&
 //@      (forall n string :: entryOK(s, n)) && (forall n string, k string :: (has(s.active.m, n) && has(s.active.m, k) && n != k) ==> s.active.m[n] != s.active.m[k]) && (forall n string :: has(s.active.f, n) ==> (has(s.active.m, n) && s.active.f[n] != nil)) && (forall n string :: has(s.active.w, n) ==> has(s.active.f, n)) && chansOK(s) }
 //@ pred chansOK(s *Store) { (forall n string :: has(s.active.w, n) ==> allocated(s.active.w[n])) && forall n string, j int :: (has(s.active.w, n) && 0 <= j && j < len(s.active.w[n])) ==> (s.active.w[n][j].ready != nil && allocated(s.active.w[n][j].ready) && chcap(s.active.w[n][j].ready) == 1 && chlen(s.active.w[n][j].ready) >= 0 && chlen(s.active.w[n][j].ready) <= 1) }
+// signals are only ever added by other goroutines, and a one-slot channel stays within its slot
+//@ pred slotsOnlyFill(s *Store) { forall c ref :: isSlot(c) ==> (chlen(c) >= old(chlen(c)) && (old(chlen(c)) <= 1 ==> chlen(c) <= 1)) }
 //@ pred sameEntries(s *Store) { forall n string :: has(s.active.m, n) == old(has(s.active.m, n)) && (has(s.active.m, n) ==> (s.active.m[n] == old(s.active.m[n]) && s.active.m[n].Secret == old(s.active.m[n].Secret))) }
 //@ pred handlesKept(s *Store) { forall n string :: old(has(s.active.f, n)) ==> (has(s.active.f, n) && s.active.f[n] == old(s.active.f[n])) }
 
@@ -172,6 +174,7 @@ package setec
 //@   ensures [C12,C19 apply.no-additions] forall n string :: has(s.active.m, n) ==> old(has(s.active.m, n))
 //@   ensures [C11 apply.installs] forall n string :: (has(updates, n) && updates[n] != nil) ==> (has(s.active.m, n) && s.active.m[n].Secret == updates[n])
 //@   ensures [C12 apply.others-kept] forall n string :: (has(s.active.m, n) && !(has(updates, n) && updates[n] != nil)) ==> s.active.m[n].Secret == old(s.active.m[n].Secret)
+//@   ensures [C13 apply.at-most-one-flush] cacheWrites == old(cacheWrites) || cacheWrites == old(cacheWrites) + 1
 //@   ensures [C13 apply.flush] (len(updates) > 0 && s.cache != nil) ==> cacheWrites == old(cacheWrites) + 1
 //@   ensures [C13 apply.flush-whole] (len(updates) > 0 && s.cache != nil && err == nil) ==> (forall n string :: cacheDocAt(s, n))
 //@   loop 0
@@ -183,9 +186,11 @@ package setec
 //@     invariant [installed] forall n string :: (visited(n) && updates[n] != nil) ==> (has(s.active.m, n) && s.active.m[n].Secret == updates[n])
 //@     invariant [kept] forall n string :: (has(s.active.m, n) && !(visited(n) && updates[n] != nil)) ==> s.active.m[n].Secret == old(s.active.m[n].Secret)
 //@     invariant [pending] forall n string :: (has(updates, n) && !visited(n)) ==> has(s.active.m, n)
+//@     invariant [slots] slotsOnlyFill(s)
 //@     invariant [C15 notified] forall n string, j int :: (visited(n) && updates[n] != nil && has(s.active.w, n) && 0 <= j && j < len(s.active.w[n])) ==> chlen(s.active.w[n][j].ready) == 1
 //@   loop 1
 //@     invariant [chans] chansOK(s)
+//@     invariant [slots] slotsOnlyFill(s)
 //@     invariant [C15 notified-so-far] forall j int :: (0 <= j && j < iter) ==> chlen(s.active.w[name][j].ready) == 1
 //@     invariant [C15 notified-earlier] forall n string, j int :: (n != name && visited(n) && updates[n] != nil && has(s.active.w, n) && 0 <= j && j < len(s.active.w[n])) ==> chlen(s.active.w[n][j].ready) == 1
 
@@ -384,7 +389,7 @@ package setec
 //@ func (*Store).lookupWatcher(s, ctx, name) (w, err)
 //@   requires storeInv(s) && !s.active.Mutex && ctx != nil && s.client != nil
 //@   interference at lookupSecretInternal writers (*client/setec.Store).lookupWatcher assume storeInv(s) && !s.active.Mutex && slotRecvs == old(slotRecvs) && handlesKept(s) &&
-//@        (old(has(s.active.w, name)) ==> has(s.active.w, name)) && len(s.active.w[name]) >= old(len(s.active.w[name])) && midWatchers == len(s.active.w[name])
+//@        (forall n string :: (old(has(s.active.w, n)) ==> has(s.active.w, n)) && len(s.active.w[n]) >= old(len(s.active.w[n]))) observe midWatchers == len(s.active.w[name])
 //@   ensures [C15,C16 watcher.keeps-watchers-registered-meanwhile] (err == nil && !old(has(s.active.m, name))) ==> len(s.active.w[name]) == midWatchers + 1
 //@   ensures [C16 watcher.gate] (!old(has(s.active.m, name)) && !s.allowLookup) ==> (err != nil && net == old(net) && sameEntries(s))
 //@   ensures [C15 watcher.registered] err == nil ==> (w.ready != nil && fresh(w.ready) && isSlot(w.ready) && chcap(w.ready) == 1 && chlen(w.ready) == 0 && has(s.active.w, name) && has(s.active.f, name) && w.Secret != nil &&
@@ -455,8 +460,7 @@ package setec
 //@   ensures [C15 updatererr.only-reports] r == old(u.err) && u.err == old(u.err) && slotRecvs == old(slotRecvs) && builderCalls == old(builderCalls) && !u.mu
 //@ func NewUpdater(ctx, s, name, newValue) (u, err)
 //@   requires storeInv(s) && !s.active.Mutex && ctx != nil && s.client != nil && newValue != nil
-//@   interference at newValue writers (*client/setec.Store).applyUpdates assume storeInv(s) && !s.active.Mutex && net == old(net) && has(s.active.w, name) == old(has(s.active.w, name)) && s.active.w[name] == old(s.active.w[name]) && handlesKept(s) &&
-//@        (forall c ref :: isSlot(c) ==> (chlen(c) >= old(chlen(c)) && (old(chlen(c)) <= 1 ==> chlen(c) <= 1)))
+//@   interference at newValue writers (*client/setec.Store).applyUpdates assume storeInv(s) && !s.active.Mutex && net == old(net) && has(s.active.w, name) == old(has(s.active.w, name)) && s.active.w[name] == old(s.active.w[name]) && handlesKept(s) && slotsOnlyFill(s)
 //@   at call newValue: assert [C15 newupdater.watcher-registered-before-the-value-is-built] has(s.active.w, name) && len(s.active.w[name]) >= old(len(s.active.w[name])) + 1
 //@   ensures [C15 newupdater.ready-for-get] err == nil ==> (u != nil && !u.mu && u.newValue != nil && u.logf != nil && u.w.Secret != nil && u.w.ready != nil && isSlot(u.w.ready) && chcap(u.w.ready) == 1 && chlen(u.w.ready) >= 0 && chlen(u.w.ready) <= 1)
 //@   ensures [C15 newupdater.initial-value-built-once] err == nil ==> (builderCalls == old(builderCalls) + 1 && lastBuilderErr == nil && lastBuiltFrom == lastHandleValue)
